@@ -760,6 +760,20 @@ fn run_inner(sc: &J) -> Result<Option<String>, String> {
                 if g != must_ok { return Ok(Some(format!("generic decoder: fixed of size {size} under limit {l}: accepted = {g}"))); }
                 if d != must_ok { return Ok(Some(format!("serde deserializer: fixed of size {size} under limit {l}: accepted = {d}"))); }
             }
+            // declared item counts of the schema-aware deserializer's array/map blocks (D7): a count above the limit is refused in
+            // the positive form and in the negative form (count, then the byte size — which is NOT what is bounded)
+            let arr = Schema::parse_str("{\"type\":\"array\",\"items\":\"null\"}").map_err(|e| e.to_string())?;
+            let rd_arr = apache_avro::reader::datum::GenericDatumReader::builder(&arr).build().map_err(|e| e.to_string())?;
+            for (count, must_ok) in [(l, true), (l + 1, false)] {
+                if count == 0 { continue; }
+                for neg in [false, true] {
+                    let mut data = Vec::new();
+                    if neg { hk::zig_i64(-(count as i64), &mut data).unwrap(); hk::zig_i64(0, &mut data).unwrap(); } else { hk::zig_i64(count as i64, &mut data).unwrap(); }
+                    data.push(0);
+                    let ok = rd_arr.read_deser::<Vec<()>>(&mut &data[..]).is_ok();
+                    if ok != must_ok { return Ok(Some(format!("serde deserializer: array block declaring {count} items ({} form) under limit {l}: accepted = {ok}", if neg { "negative" } else { "positive" }))); }
+                }
+            }
             // container block whose byte size is above the limit
             let long_schema = Schema::parse_str("\"long\"").map_err(|e| e.to_string())?;
             let mut file = Vec::new();
@@ -832,7 +846,19 @@ fn run_inner(sc: &J) -> Result<Option<String>, String> {
             let mut buf = payload.clone();
             codec.compress(&mut buf).map_err(|e| e.to_string())?;
             let compressed = buf.clone();
-            match codec.decompress(&mut buf) { Ok(()) if buf == payload => Ok(None), Ok(()) => Ok(Some(format!("decompress(compress(x)) != x for |x| = {}", payload.len()))), Err(e) => Ok(Some(format!("decompress rejects compress(x) (|x| = {}, compressed {:02x?}): {e}", payload.len(), compressed))) }
+            match codec.decompress(&mut buf) { Ok(()) if buf == payload => {}, Ok(()) => return Ok(Some(format!("decompress(compress(x)) != x for |x| = {}", payload.len()))), Err(e) => return Ok(Some(format!("decompress rejects compress(x) (|x| = {}, compressed {:02x?}): {e}", payload.len(), compressed))) }
+            // C15: "snappy blocks end with the big-endian CRC-32 of the uncompressed data and a wrong checksum is rejected" — for
+            // every payload, the empty one included: reference CRC (bit by bit), then every single-bit alteration of the checksum
+            if sc["codec"].as_str().unwrap_or("").starts_with("snappy") {
+                let n = compressed.len();
+                let want = rf::crc32(&payload).to_be_bytes();
+                if n < 4 || compressed[n - 4..] != want { return Ok(Some(format!("snappy block of a {}-byte payload ends with {:02x?}, the big-endian CRC-32 of the payload is {:02x?}", payload.len(), &compressed[n.saturating_sub(4)..], want))); }
+                for bit in 0..32 {
+                    let mut m = compressed.clone(); m[n - 4 + bit / 8] ^= 1 << (bit % 8);
+                    if codec.decompress(&mut m).is_ok() { return Ok(Some(format!("snappy block of a {}-byte payload with checksum bit {bit} flipped is accepted ({:02x?})", payload.len(), compressed))); }
+                }
+            }
+            Ok(None)
         }
         // C12/C18: Rabin digest of `data` (hex) == CRC-64-AVRO per the specification, little-endian; and the single-object
         // header of a schema = C3 01 ++ that fingerprint of its canonical form
